@@ -387,6 +387,4 @@ def harvest(ctx, rep, f_ga, f_sh):
 
 
 def replay(ctx, rp):
-    case = rp["first"]["case"]
-    print("replay case:", case)
-    return False
+    return None      # generic replay of harness/main.py
